@@ -87,6 +87,19 @@ CLAIMED = {
         technique="SQL macro -> SMT (sqlglot AST, 3VL, char-vector strings, closed-form calendar) per-path VCs "
                   "discharged by z3/cvc5; model conformance against real DuckDB; replay in real DuckDB",
         design_ref="§2 C08"),
+    "C21": dict(
+        level="proof",
+        text="The SQL codec macros (vtl_period_normalize, vtl_period_to_vtl / _sdmx_reporting / _sdmx_gregorian / "
+             "_natural, vtl_doy_to_date) are evaluated symbolically from the working tree: every documented input "
+             "spelling of every well-formed period normalises to the canonical text, every output format renders the "
+             "documented form (error 2-1-19-21 exactly where the docs say 'Not supported'), and rendered values read "
+             "back to the same period, for all years 1000..9998. The Python TimePeriodHandler is compared with the SQL "
+             "macros and the documented forms exhaustively for 1900..2100 (bounded tier, labelled as such).",
+        note="Python side is bounded (native exhaustive comparison), not proved; apply_time_period_representation "
+             "(table-level use of the macros) not under contract; DuckDB model validated by conformance + replay only.",
+        technique="SQL macro -> SMT over character-vector strings, per-path VCs (z3/cvc5), docs tables as oracle; "
+                  "bounded exhaustive native comparison for the Python twin",
+        design_ref="§2 C21"),
     "C12": dict(
         level="exploration",
         text="BOUNDED stand-in (not a proof): contracts on DAGAnalyzer.create_dag, API.semantic_analysis and API.run "
